@@ -21,8 +21,13 @@ import traceback
 VERIF = os.path.dirname(os.path.dirname(os.path.abspath(__file__)))
 REPO = os.environ.get("VERIF_REPO", "/repo")
 TARGET = os.path.join(VERIF, ".target")
-WORKER_BIN = os.path.join(TARGET, "harness", "release", "worker")
-FE_DIR = os.path.join(TARGET, "fe", "release")
+# another checkout (VERIF_REPO) gets build directories of its own: svgdx is also a cdylib, so its artefacts carry no per-path hash
+# in their names and cargo would call a library built from one checkout "fresh" for another it had built before
+_SUFFIX = "" if REPO == "/repo" else "-" + __import__("hashlib").md5(REPO.encode()).hexdigest()[:10]
+HARNESS_TARGET = os.path.join(TARGET, "harness" + _SUFFIX)
+WORKER_BIN = os.path.join(HARNESS_TARGET, "release", "worker")
+FE_TARGET = os.path.join(TARGET, "fe" + _SUFFIX)
+FE_DIR = os.path.join(FE_TARGET, "release")
 CLI_BIN = os.path.join(FE_DIR, "svgdx")
 SERVER_BIN = os.path.join(FE_DIR, "svgdx-server")
 SCRATCH = os.path.join(VERIF, "scratch")
@@ -57,12 +62,12 @@ def build_worker():
     except OSError:
         pass
     env = _cargo_env()
-    env["CARGO_TARGET_DIR"] = os.path.join(TARGET, "harness")
+    env["CARGO_TARGET_DIR"] = HARNESS_TARGET
     manifest = os.path.join(VERIF, "harness", "Cargo.toml")
     if REPO != "/repo":
         # VERIF_REPO points at another checkout (background runs against a snapshot): same harness sources, path dependency
         # re-pointed, in a scratch copy under the build directory
-        hdir = os.path.join(TARGET, "harness-src")
+        hdir = os.path.join(TARGET, "harness-src" + _SUFFIX)
         os.makedirs(hdir, exist_ok=True)
         text = open(manifest).read().replace('path = "/repo"', 'path = "%s"' % REPO)
         m2 = os.path.join(hdir, "Cargo.toml")
@@ -88,7 +93,7 @@ def build_worker():
 def build_frontends():
     """(re)build the shipped binaries (hooks off) from /repo's current working tree."""
     env = _cargo_env()
-    env["CARGO_TARGET_DIR"] = os.path.join(TARGET, "fe")
+    env["CARGO_TARGET_DIR"] = FE_TARGET
     p = subprocess.run(
         ["cargo", "build", "--release", "--offline", "--bins", "--manifest-path",
          os.path.join(REPO, "Cargo.toml")],
